@@ -37,7 +37,7 @@ def _cnormal(rng, m):
 
 # families that are supported on indices >= t (the precondition of the preservation clause) are marked in SUPPORT
 FAMILIES = ["complex", "real", "negative", "sparse", "uniform", "product", "halfprod", "basis_any", "zero_child0",
-            "zero_pairs", "sup_complex", "sup_real", "sup_sparse", "sup_basis", "sup_target", "sup_uniform", "sup_last"]
+            "zero_pairs", "neg_repeat", "signed_even", "sup_complex", "sup_real", "sup_sparse", "sup_basis", "sup_target", "sup_uniform", "sup_last"]
 
 
 def make_vector(rng, n, t, fam):
@@ -79,6 +79,19 @@ def make_vector(rng, n, t, fam):
                     v[2 * p:2 * p + 2] = 0
         if not v.any():
             v[N - 1] = 1
+    elif fam == "neg_repeat":   # a sub-block repeated with the opposite sign: multiplexer entries G and -G (UCGE must not merge them)
+        if n == 1:
+            v = np.array([1.0, -1.0], dtype=complex)
+        else:
+            k = int(rng.integers(0, n))          # position of the (1, -1) factor, counted from the most significant qubit
+            left = _cnormal(rng, 2 ** k) if rng.random() < 0.5 else np.abs(_cnormal(rng, 2 ** k)).real + 0j
+            right = _cnormal(rng, 2 ** (n - 1 - k)) if rng.random() < 0.5 else np.abs(_cnormal(rng, 2 ** (n - 1 - k))).real + 0j
+            v = np.kron(np.kron(left, np.array([1.0, -1.0])), right)
+    elif fam == "signed_even":  # signed real entries at the even indices, zeros at the odd ones
+        v = np.zeros(N, dtype=complex)
+        v[0::2] = (np.abs(_cnormal(rng, N // 2)).real if N >= 2 else 1.0) * rng.choice([-1.0, 1.0], max(N // 2, 1))
+        if rng.random() < 0.5 and N >= 4:        # equal moduli: exact repetitions up to sign
+            v[0::2] = rng.choice([-1.0, 1.0], N // 2)
     elif fam == "sup_complex":
         v = _cnormal(rng, N)
         v[:t] = 0
